@@ -101,7 +101,14 @@ def render_isar_struct(draw, schema, st_, patch):
             parts.append('<member %s><dimension variableSizeFieldName="@%s"/></member>' % (attrs, m.sizer))
             forms.add('ext')
         elif m.kind == DYNARR:
-            if deg in (3, 4):
+            if deg == 6 and not as_message:
+                # written as a *limited* array bound to its counter; the documented `dynamic` rule (re-)associates
+                # it with the size field and drops the size
+                parts.append('<member %s><dimension size="3" isVariableSize="true" variableSizeFieldName="num_of_%s"/>'
+                             '</member>' % (attrs, m.name))
+                patch.append('%s dynamic %s num_of_%s' % (st_.name, m.name, m.name))
+                forms.add('patch:dynamic-on-limited')
+            elif deg in (3, 4):
                 parts.append('<member name="num_of_%s" type="u32"/>' % m.name)
                 parts.append('<member %s><dimension size="1"/></member>' % attrs)
                 patch.append('%s dynamic %s num_of_%s' % (st_.name, m.name, m.name))
